@@ -313,6 +313,18 @@ var chinese = ev.Register(&ev.P[dayCase]{
 				return err
 			}
 		}
+		// the long renderings: the lunar date's and the Buddhist date's begin with the short one; the Taoist one
+		// names the same year, month and day through the component getters (no wording of mine involved)
+		if full := l.ToFullString(); !strings.HasPrefix(full, s) {
+			return fmt.Errorf("lunar %s: ToFullString()=%q does not begin with String()=%q", key, full, s)
+		}
+		if full := foto.ToFullString(); !strings.HasPrefix(full, fotoText) {
+			return fmt.Errorf("Foto date of lunar %s: ToFullString()=%q does not begin with ToString()=%q", key, full, fotoText)
+		}
+		if full := tao.ToFullString(); !strings.Contains(full, tao.GetYearInChinese()) || !strings.Contains(full, tao.GetMonthInChinese()) || !strings.Contains(full, tao.GetDayInChinese()) ||
+			strings.Index(full, tao.GetMonthInChinese()+"月"+tao.GetDayInChinese()) < 0 && strings.Index(full, tao.GetMonthInChinese()) > strings.LastIndex(full, tao.GetDayInChinese()) {
+			return fmt.Errorf("Tao date of lunar %s: ToFullString()=%q does not name year %q, month %q and day %q of the same object", key, full, tao.GetYearInChinese(), tao.GetMonthInChinese(), tao.GetDayInChinese())
+		}
 		// lunar month / year objects
 		lmo := calendar.NewLunarMonthFromYm(ly, lm)
 		ms := lmo.String()
